@@ -33,6 +33,11 @@ void DecodingTable::setDecodingTable(uint k, DecodeableSubstr *substrs) {
   this->k = k;
   this->bytesStream = 0;
 
+  for (uint i = 0; i < 256; i++) {
+    ventry[i].length = ((i & 240) >> 4);
+    ventry[i].bits = ((i & 15) + 1);
+  }
+
   // Scanning the table and building its compact representation
   uint entries = pow(2, this->k);
   endings = new BitString(entries);
@@ -246,7 +251,7 @@ DecodingTable *DecodingTable::load(std::istream &in) {
   for (uint i = 0; i < table->nodes; i++)
     table->subtrees[i] = DecodingTree::load(in);
 
-  for (uint i = 0; i < 255; i++) {
+  for (uint i = 0; i < 256; i++) {
     table->ventry[i].length = ((i & 240) >> 4);
     table->ventry[i].bits = ((i & 15) + 1);
     ;
